@@ -164,6 +164,52 @@ def check(ctx, rep):
                 n = sum(1 for i in se.term_info.values() if i.get("k") == "call" and (i["name"] in ("rc4::Rc4::apply_keystream", "std::iter::from_fn", "core::iter::from_fn") or skip_helper(ctx, i["name"]) is not None))
                 rep.check(n == 1, "derivation", fn, "single-drop", "exactly one discard", "%d keystream applications in the constructor" % n, se.body.loc())
                 good = True
+        if not good and r[0] == "agg" and r[2] == IC and len(r[4]) == 1 and r[4][0][0] == "phi":
+            # or: the drop done piece by piece, `for _ in 0..K { inner.apply_keystream(&mut [0; L]) }`
+            # with K * L = 1024 (the keystream does not depend on the bytes it is applied to)
+            from rules import algos
+            v = r[4][0]
+            body_ = se.body
+            fi = algos.for_info(ctx, se)
+            if len(fi) == 1 and v[1] == se.fn and v[2] in fi:
+                head = v[2]
+                elem, src, lp = fi[head]
+                st_ = algos.loop_state(se, head)
+                mine = [(k_, iv, sv) for k_, (iv, sv) in st_.items() if algos.phi_of(se, head, k_) == v]
+                cnt = None
+                if src is not None and src[0] == "agg" and src[2] == "std::ops::Range":
+                    from symex import fold_consts
+
+                    def cval(x):
+                        x = util.numnorm(fold_consts(x))
+                        if x[0] == "binop" and x[1] in ("Div", "Mul", "Add", "Sub") and cval(x[2])[0] == "int" and cval(x[3])[0] == "int" and (x[1] != "Div" or cval(x[3])[1] != 0):
+                            a_, b_ = cval(x[2])[1], cval(x[3])[1]
+                            return ("int", {"Div": a_ // b_ if b_ else 0, "Mul": a_ * b_, "Add": a_ + b_, "Sub": a_ - b_}[x[1]])
+                        return x
+                    lo_, hi_ = cval(src[4][0]), cval(src[4][1])
+                    if lo_[0] == "int" and hi_[0] == "int":
+                        cnt = hi_[1] - lo_[1]
+                if len(mine) == 1 and cnt is not None and cnt > 0:
+                    k_, iv, sv = mine[0]
+                    iv, sv = strip(iv), sv
+                    apps = [i for i in se.term_info.values() if i.get("k") == "call" and i["name"] == "rc4::Rc4::apply_keystream"]
+                    loop_blocks = set()
+                    for e in cfg.back_edges(body_):
+                        if e[1] == head:
+                            loop_blocks |= cfg.natural_loop(body_, e)
+                    if util.is_call(iv, "rc4::Rc4::new") and len(apps) == 1 and apps[0]["site"][1] in loop_blocks and sv[0] == "after" and strip(sv[1]) == strip(apps[0]["term"]) and sv[2] == 0 and strip(sv[3]) == strip(v):
+                        key = util.bexpr(ctx, se, iv[2][0])
+                        want = ("HMAC", P(2), (P(1),)) if dir_enum is None else ("HMAC", ("const", dir_keys.get(0, b"")), (P(1),))
+                        if dir_enum is not None and len(dir_keys) != len(fb.adts[dir_enum]["variants"]):
+                            want = ("?",)
+                        rep.check(key == util.cb(want), "derivation", fn, "hmac-key", "RC4 key = all bytes of HMAC-SHA1(key = direction constant; session key)", "RC4 key is %s, expected HMAC-SHA1(key=arg2; arg1)" % show_b(key)[:300], se.body.loc())
+                        la_ = apps[0].get("locargs", ((), ()))
+                        plen = se.loc_array_len(la_[1][1]) if len(la_) > 1 and la_[1][0] == "ref" else None
+                        idom = cfg.dominators(body_)
+                        every = all(cfg.dominates(idom, apps[0]["site"][1], t_) for t_, h_ in cfg.back_edges(body_) if h_ == head)
+                        rep.check(plen is not None and plen * cnt == DROP and every, "derivation", fn, "drop-1024", "%d rounds of the keystream over a %s-byte scratch buffer: %d bytes discarded" % (cnt, plen, DROP), "discarded prefix is %s rounds x %s bytes, expected %d bytes in all" % (cnt, plen, DROP), se.body.loc())
+                        rep.ok("derivation", fn, "single-drop", "the only keystream application in the constructor is the one in the drop loop", se.body.loc())
+                        good = True
         if not good:
             rep.violation("derivation", fn, "shape", "constructor is not Rc4::new(hmac) followed by one discarded keystream application: " + desc, se.body.loc())
         sig = [fb.ty(i).peel_refs().s for i in se.body.d["inputs"]]
